@@ -188,10 +188,24 @@ AMOUNT = [
       contract="""
         ensures r == (self@.dom() == Set::<Commodity>::empty()),   // @Amount.is_absolute_zero.no_commodity_at_all
 """),
-    U("Amount::is_zero", AM, [r"impl<'ctx> Amount<'ctx>", r"pub fn is_zero\b"], fn="is_zero", wrap=IMPL_AM, opaque=True,
-      rewrites=[RET("-> bool", "-> (r: bool)")],
+    U("Amount::is_zero", AM, [r"impl<'ctx> Amount<'ctx>", r"pub fn is_zero\b"], fn="is_zero", wrap=IMPL_AM,
+      rewrites=[RET(), ("R14",)],
+      body_start="        proof { self.lemma_view(); }",
+      loops={0: """
+            invariant
+                it.history@ + vstd::std_specs::iter::IteratorSpec::remaining(&it.iter) == vstd::std_specs::iter::IteratorSpec::remaining(&it.snapshot@),
+                forall|j: int| 0 <= j < it.history@.len() ==> (#[trigger] it.history@[j]).1.val() == 0real,
+                forall|k: Commodity| self.values@.contains_key(k) ==> exists|j: int| 0 <= j < vstd::std_specs::iter::IteratorSpec::remaining(&it.snapshot@).len()
+                    && *(#[trigger] vstd::std_specs::iter::IteratorSpec::remaining(&it.snapshot@)[j]).0 == k,
+                forall|j: int| 0 <= j < vstd::std_specs::iter::IteratorSpec::remaining(&it.snapshot@).len() ==>
+                    self.values@.contains_key(*(#[trigger] vstd::std_specs::iter::IteratorSpec::remaining(&it.snapshot@)[j]).0)
+                    && self.values@[*vstd::std_specs::iter::IteratorSpec::remaining(&it.snapshot@)[j].0] == *vstd::std_specs::iter::IteratorSpec::remaining(&it.snapshot@)[j].1,
+                self@.dom() == self.values@.dom(),
+                forall|c: Commodity| self.values@.contains_key(c) ==> #[trigger] self@[c] == self.values@[c].val(),
+                forall|c: Commodity| self.values@.contains_key(c) ==> self@[c] == (#[trigger] self.values@[c]).val(),
+"""},
       contract="""
-        ensures r == all_zero(self@),   // @Amount.is_zero.every_commodity_zero (ASSUMED, L1: Iterator::all over HashMap::iter)
+        ensures r == all_zero(self@),   // @Amount.is_zero.every_commodity_zero
 """),
     U("Amount::remove_zero_entries", AM, [r"impl<'ctx> Amount<'ctx>", r"pub fn remove_zero_entries\b"], fn="remove_zero_entries", wrap=IMPL_AM, opaque=True,
       contract="""
